@@ -126,6 +126,11 @@ def kv_check(ctx, module, theorems, relevant, what, assumptions, procs=None, cas
         ans = r[1][sig["line"]] if sig["line"] < len(r[1]) else ""
         if ans.startswith(sig["answer_prefix"]):
             ctx.known.append("%s %s [replay %s; implementation and reference model agree: %s]" % (kf["id"], kf["history"], kf["replay"], r[1] == r[2]))
+        else:
+            # the listed history no longer ends the way the finding says (repaired upstream, or the replay file no longer
+            # lines up with the harness): said aloud, so that a silent disappearance is not mistaken for a clean bill
+            ctx.log("known finding %s is NOT reproduced by %s on this tree (answer at line %d: `%s`, expected to start with `%s`)" % (kf["id"], kf["replay"], sig["line"], ans[:60], sig["answer_prefix"]))
+            ctx.known_missing = getattr(ctx, "known_missing", []) + [kf["id"]]
     outs = run_kv(ctx, procs, cases)
     lines = ncases = diffs = reported = 0
     samples = []
